@@ -55,11 +55,15 @@ func newGenWorldCfg(env *Env, rng *RNG, seed uint64, withNST bool) *genWorld {
 	if o.equalPowers {
 		cfg.Powers = []int64{100, 100, 100}
 	}
-	c := NewChain(cfg)
-	w := &genWorld{c: c, env: env, rng: rng, optOut: map[int]bool{}, selfUnd: map[int]int64{}}
+	w := &genWorld{env: env, rng: rng, optOut: map[int]bool{}, selfUnd: map[int]int64{}}
 	for i := 0; i < 4; i++ {
 		w.stakers = append(w.stakers, common.BytesToAddress(detBytes(seed, "gstaker", i)[:20]))
 	}
+	if genMulti && !o.lst2 && !withNST {
+		w.multi = true
+		genMultiCfg(&cfg, w) // dom_genesis_multi.go: two further LSTs WITH genesis holders (chained after cfg.Mutate)
+	}
+	w.c = genBoot(cfg) // NewChain; a panic of InitChain is tagged (genScenario reports it and ends the scenario only)
 	return w
 }
 
@@ -201,6 +205,11 @@ func (w *genWorld) check(res roundTripResult, v1, v2 coreView, directed bool) {
 			// F-18c (repaired) as it shows once val_set carries the stored keys: x/dogfood InitGenesis cannot resolve the
 			// validator's (replaced, still active) key because its reverse lookup was not rebuilt by x/operator
 			env.Violate("C18.import", "prev-key-reverse-lost", "the reverse lookup of a key replaced during the running epoch is not rebuilt at import: x/dogfood InitGenesis fails with "+res.importErr, w.hist)
+		}
+		if strings.HasPrefix(res.importErr, "export:") {
+			// no document at all: a module's ExportGenesis panicked on a reachable state
+			env.Violate("C18.import", "export-failed", "no genesis document can be exported from this state: "+res.importErr, w.hist)
+			return
 		}
 		env.Violate("C18.import", "import-failed", "export/import failed: "+res.importErr, w.hist)
 		return
@@ -400,6 +409,9 @@ func (w *genWorld) randomOps(n int) {
 	free := map[[2]int]int64{}          // deposited and not delegated, per (staker, asset)
 	deleg := map[[3]int]int64{}         // delegated, per (staker, operator, asset)
 	fav := w.rng.Intn(len(c.Operators)) // the operator most delegations of the second LST go to
+	for k, v := range w.genFree {       // multi-asset world: what the stakers hold (withdrawable) at genesis
+		free[k] = v
+	}
 	for i := 0; i < n; i++ {
 		si := w.rng.Intn(len(w.stakers))
 		oi := w.rng.Intn(len(c.Operators))
@@ -412,6 +424,10 @@ func (w *genWorld) randomOps(n int) {
 			if w.rng.Chance(4, 5) {
 				oi = fav
 			}
+		}
+		if w.multi {
+			// multi-asset world: every ledger op picks one of the three LSTs: stakers with 2-3 rows, operators with 2-3 pools
+			ai = w.rng.Intn(len(c.Cfg.Assets))
 		}
 		w.asset = ai
 		// whole amounts (all that is free / all that is delegated) as often as partial ones: zero remainders
@@ -500,6 +516,9 @@ func (w *genWorld) randomOps(n int) {
 				if w.deposit(si, 20000000) == nil {
 					free[k] += 20000000
 				}
+			}
+			if free[k] == 0 {
+				continue // the deposit was refused (cannot happen on the unchanged code)
 			}
 			amt := 1 + w.rng.Int63n(free[k])
 			if whole {
@@ -667,101 +686,128 @@ func domGenesis(env *Env) error {
 	ops := env.Int("ops", 25)
 	cont := env.Int("cont", 6)
 	if env.Int("directed", 1) != 0 {
+		var w *genWorld
+		var c *Chain
 		// directed: pending undelegations held by dogfood + a replaced key + a fee-distribution epoch, then export
-		w := newGenWorld(env, rng, env.Report.Seed*1000+901)
-		c := w.c
-		c.EndAndBegin(time.Minute)
-		_ = w.deposit(0, 5000000)
-		_ = w.deposit(1, 7000000)
-		_ = w.delegate(0, 0, 3000000, false)
-		_ = w.delegate(1, 2, 7000000, false)
-		c.EndAndBegin(time.Hour + time.Second)
-		_ = w.delegate(0, 0, 1000000, true)
-		_ = w.delegate(1, 2, 2000000, true)
-		_ = w.replaceKey(1)
-		w.runOne(0, true, 12)
+		genScenario(env, "D1", func() {
+			w = newGenWorld(env, rng, env.Report.Seed*1000+901)
+			c = w.c
+			c.EndAndBegin(time.Minute)
+			_ = w.deposit(0, 5000000)
+			_ = w.deposit(1, 7000000)
+			_ = w.delegate(0, 0, 3000000, false)
+			_ = w.delegate(1, 2, 7000000, false)
+			c.EndAndBegin(time.Hour + time.Second)
+			_ = w.delegate(0, 0, 1000000, true)
+			_ = w.delegate(1, 2, 2000000, true)
+			_ = w.replaceKey(1)
+			w.runOne(0, true, 12)
+		})
 		// directed 2: a validator's key replaced during the running epoch (the previous replacement is already active)
-		w = newGenWorld(env, rng, env.Report.Seed*1000+902)
-		c = w.c
-		c.EndAndBegin(time.Minute)
-		_ = w.replaceKey(2)
-		c.EndAndBegin(time.Hour + time.Second)
-		c.EndAndBegin(time.Hour + time.Second)
-		c.EndAndBegin(time.Minute) // not the block that ends the epoch: the PrevConsKey records survive until the export
-		_ = w.replaceKey(2)
-		_ = w.replaceKey(0)
-		w.runOne(0, true, 4)
+		genScenario(env, "D2", func() {
+			w = newGenWorld(env, rng, env.Report.Seed*1000+902)
+			c = w.c
+			c.EndAndBegin(time.Minute)
+			_ = w.replaceKey(2)
+			c.EndAndBegin(time.Hour + time.Second)
+			c.EndAndBegin(time.Hour + time.Second)
+			c.EndAndBegin(time.Minute) // not the block that ends the epoch: the PrevConsKey records survive until the export
+			_ = w.replaceKey(2)
+			_ = w.replaceKey(0)
+			w.runOne(0, true, 4)
+		})
 		// directed 3: opt-in and opt-out of a second AVS in ONE block (equal heights in the stored OptedInfo, which is
 		// never deleted), and one block apart as control: the export must still pass the operator module's Validate
-		w = newGenWorld(env, rng, env.Report.Seed*1000+903)
-		c = w.c
-		c.EndAndBegin(time.Minute)
-		eIn, eOut := w.optInOut(0, true)
-		eIn2, eOut2 := w.optInOut(1, false)
-		env.Outcome(fmt.Sprintf("directed:D3 same-block optin/out=%s/%s next-block=%s/%s", genErrClass(eIn), genErrClass(eOut), genErrClass(eIn2), genErrClass(eOut2)))
-		if eIn != nil || eOut != nil || eIn2 != nil || eOut2 != nil {
-			env.Note("directed-D3-setup-failed")
-		}
-		w.runOne(0, true, 4)
+		genScenario(env, "D3", func() {
+			w = newGenWorld(env, rng, env.Report.Seed*1000+903)
+			c = w.c
+			c.EndAndBegin(time.Minute)
+			eIn, eOut := w.optInOut(0, true)
+			eIn2, eOut2 := w.optInOut(1, false)
+			env.Outcome(fmt.Sprintf("directed:D3 same-block optin/out=%s/%s next-block=%s/%s", genErrClass(eIn), genErrClass(eOut), genErrClass(eIn2), genErrClass(eOut2)))
+			if eIn != nil || eOut != nil || eIn2 != nil || eOut2 != nil {
+				env.Note("directed-D3-setup-failed")
+			}
+			w.runOne(0, true, 4)
+		})
 		// directed 4: a native-token delegation (signed MsgDelegation in DeliverTx): x/delegation writes an operator pool
 		// row under ExocoreAssetID, a token that x/assets does not list
-		w = newGenWorld(env, rng, env.Report.Seed*1000+904)
-		c = w.c
-		c.EndAndBegin(time.Minute)
-		env.Outcome("directed:D4 native delegation=" + w.nativeDelegate(1, 12345))
-		w.runOne(0, true, 4)
+		genScenario(env, "D4", func() {
+			w = newGenWorld(env, rng, env.Report.Seed*1000+904)
+			c = w.c
+			c.EndAndBegin(time.Minute)
+			env.Outcome("directed:D4 native delegation=" + w.nativeDelegate(1, 12345))
+			w.runOne(0, true, 4)
+		})
 		// directed 5: a client chain with 32-byte addresses and one of its tokens, registered through the assets precompile
 		// from the gateway (the admission checks are addressLength >= 20 and len(token address) >= addressLength)
-		w = newGenWorld(env, rng, env.Report.Seed*1000+905)
-		c = w.c
-		c.EndAndBegin(time.Minute)
-		env.Outcome("directed:D5 " + w.registerWideChain(207, 32))
-		w.runOne(0, true, 4)
+		genScenario(env, "D5", func() {
+			w = newGenWorld(env, rng, env.Report.Seed*1000+905)
+			c = w.c
+			c.EndAndBegin(time.Minute)
+			env.Outcome("directed:D5 " + w.registerWideChain(207, 32))
+			w.runOne(0, true, 4)
+		})
+		// directed 9 (dom_genesis_multi.go): three LSTs with genesis holders; a staker with three rows, operators pooling three
+		// assets incl. the native token, interleaved in store-key order; a further token registered and never deposited
+		genScenario(env, "D9", func() { genDirectedMulti(env, rng) })
+		// directed 10: every holder of one token withdraws everything: staking total back at zero, rows of zeros
+		genScenario(env, "D10", func() { genDirectedMultiDrain(env, rng) })
 		// directed 6 / 7: native restaking through the assets precompile. Two stakers deposit one validator each; the first
 		// withdraws it (D6: the second staker's stored StakerIndex is stale), then the second one too (D7: the staker
 		// list entry of the asset stays, empty, without any staker info)
 		for _, both := range []bool{false, true} {
-			w = newGenWorldCfg(env, rng, env.Report.Seed*1000+906, true)
-			c = w.c
-			c.EndAndBegin(time.Minute)
-			r := []string{w.nst("depositNST", 0, "vpk-a"), w.nst("depositNST", 1, "vpk-b"), w.nst("withdrawNST", 0, "vpk-a")}
-			if both {
-				r = append(r, w.nst("withdrawNST", 1, "vpk-b"))
-			}
-			env.Outcome(fmt.Sprintf("directed:D%d nst=%s", map[bool]int{false: 6, true: 7}[both], strings.Join(r, "/")))
-			w.runOne(0, true, 4)
+			genScenario(env, "D6/D7", func() {
+				w = newGenWorldCfg(env, rng, env.Report.Seed*1000+906, true)
+				c = w.c
+				c.EndAndBegin(time.Minute)
+				r := []string{w.nst("depositNST", 0, "vpk-a"), w.nst("depositNST", 1, "vpk-b"), w.nst("withdrawNST", 0, "vpk-a")}
+				if both {
+					r = append(r, w.nst("withdrawNST", 1, "vpk-b"))
+				}
+				env.Outcome(fmt.Sprintf("directed:D%d nst=%s", map[bool]int{false: 6, true: 7}[both], strings.Join(r, "/")))
+				w.runOne(0, true, 4)
+			})
 		}
 		// directed 8: an operator in the middle of opting out of the chain's own AVS at export time, with 1 and with 2 epoch
 		// ends between the opt-out and the export (3 unbonding epochs): the re-imported chain must carry the SAME finish
 		// epoch and both chains, run on in half-epoch steps, must complete the opt-out in the same block
 		for _, elapsed := range []int{1, 2} {
-			genForceUnbond = 3
-			w = newGenWorld(env, rng, env.Report.Seed*1000+908)
-			genForceUnbond = 0
-			c = w.c
-			c.EndAndBegin(time.Minute)
-			e := w.optOutOp(2)
-			w.note("operator=2 opts out of the chain AVS: %s", genErrClass(e))
-			for i := 0; i < elapsed; i++ {
-				c.EndAndBegin(time.Hour + time.Second)
-			}
-			c.EndAndBegin(time.Minute)
-			env.Outcome(fmt.Sprintf("directed:D8 optout=%s elapsed=%d pending=%d", genErrClass(e), elapsed, len(readCore(c, c.Ctx).OptOuts)))
-			w.contStep = 31 * time.Minute
-			w.runOne(0, true, 12)
+			genScenario(env, "D8", func() {
+				genForceUnbond = 3
+				w = newGenWorld(env, rng, env.Report.Seed*1000+908)
+				genForceUnbond = 0
+				c = w.c
+				c.EndAndBegin(time.Minute)
+				e := w.optOutOp(2)
+				w.note("operator=2 opts out of the chain AVS: %s", genErrClass(e))
+				for i := 0; i < elapsed; i++ {
+					c.EndAndBegin(time.Hour + time.Second)
+				}
+				c.EndAndBegin(time.Minute)
+				env.Outcome(fmt.Sprintf("directed:D8 optout=%s elapsed=%d pending=%d", genErrClass(e), elapsed, len(readCore(c, c.Ctx).OptOuts)))
+				w.contStep = 31 * time.Minute
+				w.runOne(0, true, 12)
+			})
 		}
 	}
 	if env.Int("boundary", 1) != 0 {
-		genBoundary(env, rng)
+		// (a boot failure ends the boundary scenarios as a whole: they share one function)
+		genScenario(env, "boundary", func() { genBoundary(env, rng) })
 	}
 	for hi := 0; hi < n; hi++ {
 		// every second world has the second LST, two of three start from non-default x/exomint / x/feedistribution params
-		genNextOpts = genOpts{lst2: hi%2 == 1, modParams: hi%3 != 0}
-		w := newGenWorld(env, rng, env.Report.Seed*1000+uint64(hi))
-		w.runOne(5+rng.Intn(ops), false, cont)
-		if hi < 2 {
-			env.Sample(strings.Join(w.hist[:min(len(w.hist), 10)], " ; "))
-		}
+		// every fourth world without the second LST is the multi-asset world (three LSTs with genesis holders)
+		genScenario(env, fmt.Sprintf("random-%d", hi), func() {
+			genNextOpts = genOpts{lst2: hi%2 == 1, modParams: hi%3 != 0}
+			genMulti = hi%4 == 2
+			w := newGenWorld(env, rng, env.Report.Seed*1000+uint64(hi))
+			genMulti = false
+			w.runOne(5+rng.Intn(ops), false, cont)
+			if hi < 3 {
+				env.Sample(strings.Join(w.hist[:min(len(w.hist), 10)], " ; "))
+			}
+		})
 	}
 	return nil
 }
